@@ -86,6 +86,7 @@ func runC12(r *Run) {
 	r.Rule("C12.3", "StepTimer and CancelTimer are assigned together: both results of one RoundTimer call or both nil; RoundTimer methods are invoked only by the state machine")
 	r.Rule("C12.4", "production timer: in the running phase a start request may panic only behind a non-blocking check that the cancel channel has not been closed (cancel-then-start never fails under any schedule)")
 	r.Rule("C12.5", "production timer: the elapsed channel is closed only in the timer-fired case; cancel closes its channel at most once (sync.Once)")
+	r.Rule("C12.8", "production timer: each started timer's elapsed channel is freshly made on every path to the start response (a cancelled timer never shares a channel with a later one, so it never reports elapsed)")
 	r.Rule("C12.7", "production timer: after every arming of the time.Timer the goroutine's next wait on every path includes timer.C (an armed timer is always listened to)")
 	r.Rule("C12.6", "production timer: after the time.Timer value has been received, no path waits on that channel again before the timer is re-armed (a second drain blocks forever and wedges every later request)")
 
@@ -488,6 +489,7 @@ func runC12(r *Run) {
 		}
 	}
 	r.Check(okOnce, "C12.5", "tmstate.StandardRoundTimer.background(cancel-once)", w.Pos(bg.Pos()), "the cancel function closes its channel through sync.Once, so calling it twice is harmless")
+	freshElapsedChannel(r, "C12.8")
 }
 
 func runC08(r *Run) {
